@@ -27,6 +27,8 @@ checks = {
             TECH + " (segmentation faults enumerated/sampled; model consumes the byte stream)"),
     "C09": ("exploration", "tunnel workloads with write stalls; process deaths (concurrent-write panic, concurrent map fatal error) and torn frames at the client are violations",
             TECH + " (seeded schedules; crash capture and client-side deframer)"),
+    "C10": ("exploration", "hostile HTTP, Authorization, NTLM, packet, legacy-ordering, websocket and KDC-proxy inputs under drawn configurations; recovered panics (server log), node exits, process deaths (auth node gRPC handler included) and a liveness probe after every input",
+            TECH + " (hostile input sequences, crash capture across nodes, liveness probe after each fault)"),
     "C11": ("fault_enumeration", "end cause x end point x transport enumerated by seed, schedule sampled; after a drain backend and client connections, goroutines, registry and gauges must be released",
             TECH + " (connection faults at enumerated points; resource-release oracle after drain)"),
     "C14": ("exploration", "NTLM message histories over several sessions (negotiate, right/wrong/unknown/empty-password authenticate, cross-session and replayed responses, garbage, clock jumps, auth-node restart) against the real verifier behind real gRPC; independent NTLMv2 computation as oracle",
@@ -47,7 +49,6 @@ not_applicable = [
 
 pending = {
     "C05": "check under construction in this session (AUTH family)",
-    "C10": "check under construction in this session (HOSTILE family)",
 }
 
 def main():
